@@ -35,7 +35,7 @@ let ev_s = function
       Some (Printf.sprintf "p%s>%d%s%s" (us u) (int_of_nat tgt) (match k with KIntr -> "i" | KNormal -> "n")
               (match oid with None -> "-" | Some i -> string_of_int (int_of_nat i)))
   | EvPostRet u -> Some ("r" ^ us u)
-  | EvRun (u, t, _) -> Some (Printf.sprintf "R%s@%d" (us u) (int_of_nat t))
+  | EvRun (u, t, _, _) -> Some (Printf.sprintf "R%s@%d" (us u) (int_of_nat t))
   | EvRet u -> Some ("E" ^ us u)
   | EvCwBegin (t, i) -> Some (Printf.sprintf "b%di%d" (int_of_nat t) (int_of_nat i))
   | EvCwRet (t, i, _) -> Some (Printf.sprintf "e%di%d" (int_of_nat t) (int_of_nat i))
